@@ -21,3 +21,5 @@ pub mod e_gc;
 pub mod e_bytecode;
 pub mod e_budget;
 pub mod e_lifecycle;
+pub mod e_laws;
+pub mod e_trace;
